@@ -66,7 +66,9 @@ type wspec struct {
 	mot         time.Duration
 }
 
-type batchCB func(w int, objs []int, attempts []uint32)
+// reread reads the payloads of the batch slice the watcher was handed AGAIN (the library must not touch a batch once it
+// has been handed over)
+type batchCB func(w int, objs []int, attempts []uint32, reread func() []int)
 type eventCB func(event string, val int, msg string, objs []int)
 
 type facade interface {
@@ -206,7 +208,17 @@ func (f *fac1) addWatcher(s wspec, cb batchCB) {
 			objs[i] = o.Payload().(int)
 			atts[i] = o.Attempt()
 		}
-		cb(s.id, objs, atts)
+		cb(s.id, objs, atts, func() []int {
+			again := make([]int, len(batch))
+			for i, o := range batch {
+				if o == nil {
+					again[i] = -1
+				} else {
+					again[i] = o.Payload().(int)
+				}
+			}
+			return again
+		})
 	}).WithMaxBatchSize(s.maxBatch).WithMaxAttempts(s.maxAttempts).WithMaxOperationTime(s.mot)
 	f.mu.Lock()
 	f.watchers[s.id] = w
@@ -273,7 +285,17 @@ func (f *fac2) addWatcher(s wspec, cb batchCB) {
 			objs[i] = o.Payload().(int)
 			atts[i] = o.Attempt()
 		}
-		cb(s.id, objs, atts)
+		cb(s.id, objs, atts, func() []int {
+			again := make([]int, len(batch))
+			for i, o := range batch {
+				if o == nil {
+					again[i] = -1
+				} else {
+					again[i] = o.Payload().(int)
+				}
+			}
+			return again
+		})
 	}).WithMaxBatchSize(s.maxBatch).WithMaxAttempts(s.maxAttempts).WithMaxOperationTime(s.mot)
 	f.mu.Lock()
 	f.watchers[s.id] = w
